@@ -328,6 +328,19 @@ def dispatch_problems(files, module):
         if cid not in site_ids:
             probs.append("case %d (%s) has no call site in any .m file" % (cid, r))
     probs += arity_problems(files, module, cmap)
+    # serialization routines belong to the class in their name: string_serialize unwraps that class's own pointer property,
+    # string_deserialize wraps its result as that class's MATLAB class
+    cpp_all = files.get(module + "_wrapper.cpp", "")
+    for m_ in re.finditer(r'^void (\w+?)_string_(serialize|deserialize)_\d+\(int nargout, mxArray \*out\[\], int nargin, const mxArray \*in\[\]\)\n\{(.*?)^\}', cpp_all, re.M | re.S):
+        flat, which, body = m_.group(1), m_.group(2), m_.group(3)
+        if which == "serialize":
+            pm = re.search(r'unwrap_shared_ptr<.*?>\(in\[0\], "(\w+)"\)', body)
+            if pm and pm.group(1) != "ptr_" + flat:
+                probs.append("routine %s_string_serialize reads the pointer property %s instead of ptr_%s" % (flat, pm.group(1), flat))
+        else:
+            wm = re.search(r'wrap_shared_ptr\(output,"([\w.]+)"', body)
+            if wm and wm.group(1).replace(".", "") != flat:
+                probs.append("routine %s_string_deserialize wraps its result as MATLAB class %s" % (flat, wm.group(1)))
     return probs
 
 
